@@ -66,6 +66,9 @@ class FnPass:
 
     def conflict(self, a, b, n, what):
         self.U.sites += 1
+        if a == "coord" or b == "coord":
+            # a single coordinate is not a distance; only the difference of two coordinates is (see t_Binary)
+            return b if a == "coord" else a
         if a and b and a != b:
             self.U.report(self.fn, "unit-mismatch:%s" % what,
                           "%s mixes a `%s` value with a `%s` value: `%s` (for L2 the two differ by a square, so the bound prunes or accepts wrongly)" % (what, a, b, self.r.e(n)[:90]), n.get("ln"))
@@ -255,7 +258,13 @@ class FnPass:
 
     def t_Index(self, n):
         self.tag(n["i"])
-        return self.tag(n["e"])
+        t = self.tag(n["e"])
+        if t is None:
+            bt = self.c.ty(strip(n["e"]).get("t")) or ""
+            it = self.c.ty(strip(n["i"]).get("t")) or ""
+            if "ArrayBase<" in bt and "Dim<[usize; 1]>" in bt and it.strip() == "usize":
+                return "coord"      # one coordinate of a point
+        return t
 
     def t_Assign(self, n):
         t = self.tag(n["r"])
@@ -287,6 +296,9 @@ class FnPass:
     def t_Binary(self, n):
         op = n["op"]
         a, b = self.tag(n["l"]), self.tag(n["r"])
+        if op == "-" and a == "coord" and b == "coord":
+            # |x_k - y_k| is a lower bound of every L_p distance between x and y: it is measured in the unit of distances
+            return "dist"
         if op in ("+", "-"):
             return self.conflict(a, b, n, "arithmetic")
         if op in ("<", "<=", ">", ">=", "==", "!="):
